@@ -381,7 +381,7 @@ def discharge(mir, cx, fn, ex, cls, kind, bb, obj, desc, args, tests):
             return "D-ntref", cx.ntref_ok[0] and cx.table_cols_ok[0], "nonterminal references are defined nonterminals (%s); table columns are all nonterminals (%s)" % (cx.ntref_ok[1], cx.table_cols_ok[1])
         if re.match(r"^HashMap::get\(param1\.0\.\w+, .*\.name\)$", a0) or re.match(r"^HashMap::get\(param1\.0\.\w+, param2\.dollarless_name\)$", a0):
             return "D-tref", cx.tref_ok[0] and cx.method_map_ok[0], "method-name map is built from all terminal variants (%s); references are defined terminals (%s)" % (cx.method_map_ok[1], cx.tref_ok[1])
-        if re.match(r"^TerminalEnum::get_type\(param1\.1\.terminal_enum, ", a0):
+        if re.match(r"^TerminalEnum::get_type\(param\d+(\.\w+)*\.terminal_enum, ", a0):
             return "D-tref", cx.tref_ok[0] and cx.get_type_ok[0], "get_type searches all terminal variants by full name (%s); references are defined terminals (%s)" % (cx.get_type_ok[1], cx.tref_ok[1])
         if re.match(r"^Machine::get_shift_dest\(param1\.machine, param\d+, param\d+\)$", a0):
             return "D-shiftdest", True, "every terminal right of a dot has a transition from its state (A-trans: the worklist expands every state after its last growth)"
